@@ -137,3 +137,108 @@ Lemma update_kids_terminates_refuted : ~ setters_terminate_full.
 Proof. intros H. apply (H E_id (w_kids 20)). vm_compute. reflexivity. Qed.
 Lemma changed_setter_terminates_refuted : ~ setters_terminate_full.
 Proof. intros H. apply (H E_id w_changed). vm_compute. reflexivity. Qed.
+
+(* ------------------------------------------------------------------ the part of the state Idx talks about *)
+Definition ekey (en : entry) := (s_oid (e_l en), s_path (e_l en), s_oid (e_r en), s_path (e_r en)).
+Definition iview (s : state) := (map ekey (ents s), oidsL s, oidsR s, pathsL s, pathsR s).
+
+Lemma iview_eq s s' : iview s = iview s' ->
+  (forall e sd, oid_of s e sd = oid_of s' e sd /\ path_of s e sd = path_of s' e sd) /\
+  (forall sd, oids s sd = oids s' sd) /\ (forall sd, paths s sd = paths s' sd).
+Proof.
+  unfold iview. intros H. injection H as H1 H2 H3 H4 H5.
+  split; [|split; intros []; simpl; congruence].
+  intros e sd. unfold oid_of, path_of.
+  assert (Hn: nth_error (map ekey (ents s)) e = nth_error (map ekey (ents s')) e) by (rewrite H1; reflexivity).
+  rewrite !nth_error_map in Hn.
+  destruct (nth_error (ents s) e) as [a|], (nth_error (ents s') e) as [b|]; simpl in Hn; try discriminate; [|split; reflexivity].
+  injection Hn as Ha Hb Hc Hd. unfold gs. destruct sd; split; assumption.
+Qed.
+
+Lemma slot_get_paths s s' sd : paths s sd = paths s' sd -> forall p o, slot_get s sd p o = slot_get s' sd p o.
+Proof. intros H p o. unfold slot_get. rewrite H. reflexivity. Qed.
+
+Lemma IdxJ_view s s' : iview s = iview s' -> IdxJ s -> IdxJ s'.
+Proof.
+  intros Hv [Hf [Ho Hp]]. apply iview_eq in Hv as [He [Hoi Hpa]].
+  assert (Hsl: forall sd p o, slot_get s sd p o = slot_get s' sd p o) by (intros; apply slot_get_paths; apply Hpa).
+  split; [|split].
+  - intros e sd o H. rewrite <- (proj1 (He e sd)) in H. apply Hf in H as [H1 H2]. split.
+    + rewrite <- Hoi. exact H1.
+    + intros p Hp1 Hp2. rewrite <- Hsl. apply H2; [rewrite (proj2 (He e sd)); exact Hp1|exact Hp2].
+  - intros sd o e H. rewrite <- Hoi in H. apply Ho in H. rewrite <- (proj1 (He e sd)). exact H.
+  - intros sd p o e H. rewrite <- Hsl in H. apply Hp in H. rewrite <- (proj1 (He e sd)), <- (proj2 (He e sd)). exact H.
+Qed.
+
+Lemma map_list_upd {T U} (f : T -> U) l n x y :
+  nth_error l n = Some y -> f x = f y -> map f (list_upd l n x) = map f l.
+Proof.
+  revert n. induction l as [|a l IH]; intros [|n] H Hf; simpl in *; try discriminate.
+  - injection H as ->. rewrite Hf. reflexivity.
+  - f_equal. apply IH; assumption.
+Qed.
+
+Lemma iview_put_ent s e en en' :
+  nth_error (ents s) e = Some en -> ekey en' = ekey en -> iview (put_ent s e en') = iview s.
+Proof.
+  intros H Hk. unfold iview, put_ent. simpl. rewrite (map_list_upd ekey _ _ _ _ H Hk). reflexivity.
+Qed.
+
+Lemma iview_raw_side s e sd f :
+  (forall x, s_oid (f x) = s_oid x /\ s_path (f x) = s_path x) -> iview (raw_side s e sd f) = iview s.
+Proof.
+  intros Hf. unfold raw_side. destruct (nth_error (ents s) e) as [en|] eqn:E; [|reflexivity].
+  apply (iview_put_ent _ _ en); [exact E|].
+  unfold ekey, ss, gs. destruct sd; simpl; [destruct (Hf (e_r en)) as [-> ->]|destruct (Hf (e_l en)) as [-> ->]]; reflexivity.
+Qed.
+
+Lemma iview_dirty_add s e : iview (dirty_add s e) = iview s. Proof. reflexivity. Qed.
+Lemma iview_cs_add s e : iview (cs_add s e) = iview s. Proof. reflexivity. Qed.
+Lemma iview_cs_del s e : iview (cs_del s e) = iview s. Proof. reflexivity. Qed.
+
+Definition flag_cmd (c : cmd) : bool := match c with CChg _ _ _ _ | CPrio _ _ => true | _ => false end.
+
+Lemma get_ent_ok s e en : get_ent s e = Ok en -> nth_error (ents s) e = Some en.
+Proof. unfold get_ent. destruct (nth_error (ents s) e); intros H; inversion H; reflexivity. Qed.
+
+Ltac bind_inv H :=
+  match type of H with
+  | bind ?r _ = Ok _ => let x := fresh "x" in let E := fresh "E" in destruct r as [x|] eqn:E; simpl in H; [|discriminate]
+  end.
+
+(* writes of `changed` and `priority` never touch ids, paths, indexes or the tape *)
+Lemma exec_flag_view E f : forall c s s', flag_cmd c = true -> exec E f c s = Ok s' ->
+  iview s' = iview s /\ tape s' = tape s.
+Proof.
+  induction f as [|f IH]; intros c s s' Hc H; [discriminate|].
+  destruct c as [fin e sd v|fin e sd v|fin e sd v|e v]; try discriminate; simpl in H.
+  - (* CChg *)
+    bind_inv H. bind_inv H.
+    assert (Hx: iview x0 = iview s /\ tape x0 = tape s).
+    { destruct ((tchg v && tstr (s_oid (gs x sd)) || tchg (s_chg (gs x (negb sd))) && tstr (s_oid (gs x (negb sd))))%bool).
+      - injection E1 as <-. split; reflexivity.
+      - destruct (tchg (s_chg (gs x (negb sd))) && negb (tstr (s_oid (gs x (negb sd)))))%bool.
+        + apply IH in E1; [|reflexivity]. exact E1.
+        + injection E1 as <-. split; reflexivity. }
+    destruct Hx as [Hx1 Hx2]. injection H as <-. destruct fin.
+    + split.
+      * rewrite iview_raw_side; [exact Hx1|intros y; split; reflexivity].
+      * unfold raw_side. simpl. destruct (nth_error (ents x0) e); simpl; exact Hx2.
+    + split; [exact Hx1|exact Hx2].
+  - (* CPrio *)
+    bind_inv H. destruct (N.eqb (e_prio x) v); [injection H as <-; split; reflexivity|].
+    bind_inv H.
+    assert (Hx: iview x0 = iview s /\ tape x0 = tape s).
+    { destruct (N.ltb (e_prio x) v && N.ltb 0 v)%bool; [|injection E1 as <-; split; reflexivity].
+      bind_inv E1.
+      assert (Ha: iview x1 = iview s /\ tape x1 = tape s).
+      { destruct (tchg (s_chg (e_l x))); [apply IH in E2; [exact E2|reflexivity]|injection E2 as <-; split; reflexivity]. }
+      bind_inv E1.
+      destruct (tchg (s_chg (e_r x2))).
+      - apply IH in E1; [|reflexivity]. destruct E1 as [-> ->]. exact Ha.
+      - injection E1 as <-. exact Ha. }
+    destruct Hx as [Hx1 Hx2].
+    simpl in H. destruct (nth_error (ents x0) e) as [en2|] eqn:E3; [|discriminate]. injection H as <-. split.
+    + rewrite (iview_put_ent _ _ en2); [exact Hx1|exact E3|reflexivity].
+    + exact Hx2.
+Qed.
